@@ -79,6 +79,12 @@ impl<'a> LexiconSet<'a> {
     pub fn is_full(&self) -> bool {
         self.lexicons.len() >= MAX_DICTIONARIES
     }
+
+    /// Returns the number of parts of speech of the system dictionary itself
+    /// (parts of speech registered by plugins or user dictionaries are not counted)
+    pub fn num_system_pos(&self) -> usize {
+        self.num_system_pos
+    }
 }
 
 impl LexiconSet<'_> {
